@@ -331,6 +331,9 @@ func runC14(c *Check) {
 	}
 
 	c.ruleNoUseAfterTransmit("R7", "state.(*TxTracker).Check")
+	c.ruleAgeTestAppliesToRequested("R8")
+	c.ruleNewEntriesRegistered("R9")
+	c.ruleFreshMessageAfterTransmit("R10", "state.(*TxTracker).Check")
 
 	// ---- R6 every filled getdata is transmitted
 	if fn := c.Fn("R6", "state.(*TxTracker).Check"); fn != nil {
